@@ -21,6 +21,12 @@ func propC04(run *Run, n int) {
 		return c
 	}
 	keyed := func() GenCfg { c := DefaultCfg(); c.SetKeys = []string{"id"}; c.Keys = []string{"a", "id", "x"}; return c }
+	keyedPrecC04 := func() GenCfg {
+		c := keyed()
+		c.Nums = []float64{1, 1.00001, 1.0005, 1.4, 2}
+		c.ScalarBias = 3
+		return c
+	}
 	type ch struct {
 		o   OptSet
 		cfg func() GenCfg
@@ -32,6 +38,11 @@ func propC04(run *Run, n int) {
 		{OptMset, DefaultCfg, "MULTISET"}, {OptMset, NastyCfg, "MULTISET-nasty"},
 		{OptKeys("id"), keyed, "SetKeys(id)"},
 		{OptPrec(0.001), precCfg, "Precision(0.001)"}, {OptPrec(0.5), precCfg, "Precision(0.5)"}, {OptPrec(0), precCfg, "Precision(0)"},
+		// a Precision together with the set readings (the library accepts the combination; the CLI refuses -precision with
+		// -set / -mset but accepts it with -setkeys). MULTISET + Precision is left out: "within eps" is not transitive and
+		// the bag comparison of the spec matches greedily, so the spec itself is not a judge there.
+		{append(append(OptSet{}, OptSetO...), OptPrec(0.001)...), precCfg, "SET+Precision(0.001)"},
+		{append(OptKeys("id"), OptPrec(0.001)...), keyedPrecC04, "SetKeys(id)+Precision(0.001)"},
 	}
 	confusable := []*Val{VStr(""), VArr(), VObj(), VNull(), VVoid(), VStr("AAAAAAAA"), VNum(2261634.5098039214), VNum(0), VNum(math.Copysign(0, -1)), VBool(false), VStr("0"), VStr("false"), VStr("null"), VArr(VArr()), VArr(VStr("")), VArr(VObj()), VObj("a", VArr())}
 	for i := 0; i < n; i++ {
